@@ -133,6 +133,11 @@ fn walk_entity_dir(
     // contain symlinked directories are loaded correctly.
     for entry in WalkDir::new(root).follow_links(true) {
         let entry = entry?;
+        if entry.file_type().is_dir() {
+            // Only files can define entities. A directory whose name ends in `.yml` or `.yaml`
+            // isn't an entity itself, but may contain entities.
+            continue;
+        }
         // We use `entry.path()` here to get the symlink name for symlinked files.
         let ext = if let Some(ext) = entry.path().extension() {
             ext.to_str()
